@@ -147,6 +147,16 @@ def families(tier):
                 out.append(dict(prop='C07', family='c07.typed_handler_times_out_before_the_forwards', id=f'c07/tmo-{sname}-{entry}-f{int(first)}-o{"".join(order)}', cfg=dict(cfg2, window=0.8, max_targets=2),
                                 params=dict(edges=edges, entry=entry, tmo=True),
                                 scn=dict(buses={b: {} for b in names}, order=order, handlers=hs, main=[('disp', entry, 'P', 'ff', {'timeout': 0.5})], actors=[], forwards=edges, settle=3.0)))
+    # cycles and back-edges over buses with a tiny history, and a burst of events into the entry bus: an event that has been evicted from the history of a bus it
+    # already visited is still not accepted by that bus again (loop prevention goes by the path, which is permanent, not by the history, which is not)
+    for sname in ('cycle', 'full', 'double'):
+        if sname == 'double':
+            continue
+        edges = shapes[sname]
+        for entry, hist, nburst in itertools.product(names, (1, 2), (3, 5)):
+            hs = [dict(bus=b, pat='P', name='probe' + b, prog=[('ret', b)]) for b in names]
+            out.append(dict(prop='C07', family='c07.cycle_with_tiny_history', id=f'c07/tinyhist-{sname}-{entry}-h{hist}-n{nburst}', cfg=cfg2, params=dict(edges=edges, entry=entry, once_per_bus=True),
+                            scn=dict(buses={b: dict(hist=hist) for b in names}, order=names, handlers=hs, main=[('burst', entry, 'P', nburst), ('pause',)], actors=[], forwards=edges, settle=3.0, no_watch=True)))
     # three buses all REQUESTED under one name (legitimate: the library warns and renames the newcomers): they are still three different buses
     for sname, edges in shapes.items():
         for entry in names:
@@ -205,6 +215,14 @@ def oracle(spec, res):
         if set(entered) != reach:
             out.append(V('processed_by_wrong_bus_set', f'{ev} entry {entry} edges {edges}: processed on {sorted(entered)} reachable {sorted(reach)}',
                          missing=bool(reach - set(entered)), extra=bool(set(entered) - reach)))
+        if spec['params'].get('once_per_bus'):
+            acc = {}
+            for d in tr.dispatches:
+                if d[4] == ev and d[5] == 'ok':
+                    acc[d[3]] = acc.get(d[3], 0) + 1
+            again = {b: n for b, n in acc.items() if n > 1}
+            if again:
+                out.append(V('accepted_again_by_a_bus_already_in_its_path', f'{ev}: accepted {again} times; path {fe["path"]}'))
         dup = {b: n for b, n in entered.items() if n != 1}
         if dup:
             out.append(V('processed_more_than_once_on_a_bus', f'{ev}: {dup}'))
